@@ -1015,3 +1015,47 @@ Example ex_drain :
   let s := snd (run c [OpHas; OpRead 1; OpHas] (init c ex_steps)) in
   length (steps_bytes ex_steps) + empties ex_steps < 5 /\ drain 5 2 s = ([105; 33], Some (EScript 7)).
 Proof. vm_compute. split; [lia|reflexivity]. Qed.
+
+(* ---------- two requests, interleaved calls ---------- *)
+Lemma run2_alone cA cB ops : forall sA sB,
+  outs_of false ops (fst (run2 cA cB ops sA sB)) = fst (run cA (calls_of false ops) sA) /\
+  fst (snd (run2 cA cB ops sA sB)) = snd (run cA (calls_of false ops) sA) /\
+  outs_of true ops (fst (run2 cA cB ops sA sB)) = fst (run cB (calls_of true ops) sB) /\
+  snd (snd (run2 cA cB ops sA sB)) = snd (run cB (calls_of true ops) sB).
+Proof.
+  induction ops as [|[b o] ops IH]; intros sA sB.
+  - cbn. repeat split.
+  - destruct b.
+    + cbn [run2 calls_of outs_of fst snd Bool.eqb].
+      destruct (step cB o sB) as [x sB'] eqn:Es.
+      specialize (IH sA sB'). destruct (run2 cA cB ops sA sB') as [xs [a b]] eqn:Er.
+      cbn [fst snd outs_of Bool.eqb] in *. destruct IH as (I1 & I2 & I3 & I4).
+      cbn [run]. rewrite Es. destruct (run cB (calls_of true ops) sB') as [ys s''] eqn:Eb.
+      cbn [fst snd] in *. repeat split; try assumption. now rewrite I3.
+    + cbn [run2 calls_of outs_of fst snd Bool.eqb].
+      destruct (step cA o sA) as [x sA'] eqn:Es.
+      specialize (IH sA' sB). destruct (run2 cA cB ops sA' sB) as [xs [a b]] eqn:Er.
+      cbn [fst snd outs_of Bool.eqb] in *. destruct IH as (I1 & I2 & I3 & I4).
+      cbn [run]. rewrite Es. destruct (run cA (calls_of false ops) sA') as [ys s''] eqn:Eb.
+      cbn [fst snd] in *. repeat split; try assumption. now rewrite I1.
+Qed.
+
+Lemma run2_length cA cB ops : forall sA sB, length (fst (run2 cA cB ops sA sB)) = length ops.
+Proof.
+  induction ops as [|[b o] ops IH]; intros sA sB; [reflexivity|].
+  destruct b; cbn [run2].
+  - destruct (step cB o sB) as [x sB']. specialize (IH sA sB').
+    destruct (run2 cA cB ops sA sB') as [xs ss]. cbn [fst length] in *. now rewrite IH.
+  - destruct (step cA o sA) as [x sA']. specialize (IH sA' sB).
+    destruct (run2 cA cB ops sA' sB) as [xs ss]. cbn [fst length] in *. now rewrite IH.
+Qed.
+
+(* every interleaved history over two requests is one the property allows for each of them *)
+Theorem pair_ok_run2 cA stepsA cB stepsB ops :
+  let r := run2 cA cB ops (init cA stepsA) (init cB stepsB) in
+  pair_ok cA stepsA cB stepsB ops (fst r) (s_closes (fst (snd r))) (s_closes (snd (snd r))) = true.
+Proof.
+  cbv zeta. unfold pair_ok.
+  destruct (run2_alone cA cB ops (init cA stepsA) (init cB stepsB)) as (I1 & I2 & I3 & I4).
+  rewrite run2_length, Nat.eqb_refl, I1, I2, I3, I4, !history_ok_run. reflexivity.
+Qed.
